@@ -109,6 +109,109 @@ func c29Opener(c *hx.Ctx, n int) {
 	}
 }
 
+// c29OpenerSeq: two nodes X and Y, each one controller instance, each hosting several local peer
+// identities; every link (Li, Rj) is tracked by X's controller (local Li) and by Y's controller (local
+// Rj), in independent random orders. For each link exactly one of the two ends must open the stream.
+func c29OpenerSeq(c *hx.Ctx, n int) {
+	keys := genKeys(c.Rng, 16)
+	ids := make([]peer.ID, len(keys))
+	for i, k := range keys {
+		ids[i] = k.id
+	}
+	sort.Slice(ids, func(a, b int) bool { return ids[a].String() < ids[b].String() })
+	for it := 0; it < n; it++ {
+		// identities of X and of Y, interleaved in String() order (L1 < R < L2 patterns)
+		perm := c.Rng.Perm(len(ids))
+		nx, ny := 1+c.Rng.Intn(3), 1+c.Rng.Intn(3)
+		xs, ys := []peer.ID{}, []peer.ID{}
+		for i := 0; i < nx; i++ {
+			xs = append(xs, ids[perm[i]])
+		}
+		for i := 0; i < ny; i++ {
+			ys = append(ys, ids[perm[nx+i]])
+		}
+		type lnk struct{ l, r peer.ID }
+		var links []lnk
+		for _, l := range xs {
+			for _, r := range ys {
+				if c.Rng.Intn(4) != 0 {
+					links = append(links, lnk{l, r})
+				}
+			}
+		}
+		if len(links) == 0 {
+			links = append(links, lnk{xs[0], ys[0]})
+		}
+		run := func(order []int, flip bool) ([]bool, []string, error) {
+			ps := &fakePubSub{}
+			ctl := pubsub_controller.VerifNewController(quietLogger(), floodsub.FloodSubID, ps)
+			opened := make([]bool, len(order))
+			var terms []string
+			for pos, i := range order {
+				local, remote := links[i].l, links[i].r
+				if flip {
+					local, remote = remote, local
+				}
+				fl := &fakeLink{local: local, remote: remote}
+				before := ps.added
+				if err := ctl.VerifTrackLink(context.Background(), quietLogger(), fl); err != nil {
+					return nil, nil, err
+				}
+				if fl.opened > 1 || (fl.opened == 1) != (ps.added == before+1) {
+					return nil, nil, fmt.Errorf("opened %d streams, added %d", fl.opened, ps.added-before)
+				}
+				opened[pos] = fl.opened == 1
+				terms = append(terms, "("+hx.Str(local.String())+", "+hx.Str(remote.String())+")")
+			}
+			return opened, terms, nil
+		}
+		ox, oy := c.Rng.Perm(len(links)), c.Rng.Perm(len(links))
+		openX, termsX, err1 := run(ox, false)
+		openY, termsY, err2 := run(oy, true)
+		var ls []string
+		for _, l := range links {
+			ls = append(ls, l.l.String()+" <-> "+l.r.String())
+		}
+		desc := map[string]any{"kind": "opener-seq", "links(local of X <-> local of Y)": ls, "order_at_X": ox, "order_at_Y": oy, "X_opens": openX, "Y_opens": openY}
+		if err1 != nil || err2 != nil {
+			c.Failf("c29-opener-error", desc, "trackLink failed: %v %v", err1, err2)
+			continue
+		}
+		bl := func(b []bool) string {
+			items := make([]string, len(b))
+			for i, x := range b {
+				items[i] = hx.Bool(x)
+			}
+			return hx.List(items)
+		}
+		c.Case(hx.App("OpenerSeq29", hx.List(termsX), bl(openX)), desc)
+		c.Case(hx.App("OpenerSeq29", hx.List(termsY), bl(openY)), desc)
+		c.Class("opener-seq")
+		if len(xs) > 1 || len(ys) > 1 {
+			c.Nontrivial(fmt.Sprint(ls, ox, oy))
+		}
+		for i := range links {
+			var a, b bool
+			for pos, j := range ox {
+				if j == i {
+					a = openX[pos]
+				}
+			}
+			for pos, j := range oy {
+				if j == i {
+					b = openY[pos]
+				}
+			}
+			if a && b {
+				c.Failf("c29-opener-both", desc, "link %s: both ends open the pubsub stream (controllers with several local identities)", ls[i])
+			}
+			if !a && !b {
+				c.Failf("c29-opener-none", desc, "link %s: neither end opens the pubsub stream (controllers with several local identities)", ls[i])
+			}
+		}
+	}
+}
+
 // ---- histories ----
 
 type hop struct {
@@ -484,9 +587,10 @@ func releaseRace(keys []keyInfo, rounds int) []string {
 func c29(c *hx.Ctx) {
 	c.Type = "c29_case"
 	c.Agree = "c29_agree"
-	c.Rule = "opener: the real trackLink (verif export) on pairs of real ed25519 peer ids and arbitrary byte-string ids, both orientations; histories: subscribe/add-handler/remove-handler/release/release-again/new-peer-stream/incoming-message against a real FloodSub with Execute running, observed at each quiescence point: last subscription state written to every raw peer stream and all handler invocations; plus Release racing with 12 incoming messages (oracle only); non-trivial = distinct pair of different ids / history with a release"
+	c.Rule = "opener: the real trackLink (verif export) on pairs of real ed25519 peer ids and arbitrary byte-string ids, both orientations; sequences of links between two nodes hosting 1-3 local identities each, every link tracked by ONE controller instance per node in random order; histories: subscribe/add-handler/remove-handler/release/release-again/new-peer-stream/incoming-message against a real FloodSub with Execute running, observed at each quiescence point: last subscription state written to every raw peer stream and all handler invocations; plus Release racing with 12 incoming messages (oracle only); non-trivial = distinct pair of different ids / history with a release"
 	nOpen := c.N
 	c29Opener(c, nOpen)
+	c29OpenerSeq(c, c.N/4)
 
 	keys := genKeys(c.Rng, 5)
 	nh := c.N / 4
